@@ -31,6 +31,7 @@ type C11Case struct {
 var c11WorkerWeights = core.OpWeights{
 	core.OpInsert: 20, core.OpInsertNew: 20, core.OpDelete: 20, core.OpUpdate: 6, core.OpGet: 8, core.OpIter: 4,
 	core.OpPersist: 8, core.OpReload: 5, core.OpClone: 2,
+	core.OpSize: 6, // interpreted by the workers as "diff the tree against the version it started from" (DiffIter + DiffLinks)
 }
 
 func genC11(t *rapid.T, tier string) C11Case {
@@ -117,32 +118,59 @@ func runC11(c C11Case, o *run.Obs) error {
 
 	type workerState struct {
 		t      *core.Tree
+		snap   *core.Tree // the version the worker started from (never mutated)
 		store  mast.Persist
 		cache  mast.NodeCache
 		fcache *env.FrozenCache
 		last   *core.SavedRoot
 	}
 	states := make([]*workerState, len(c.Workers))
-	// parents for clones are created single-threaded, one per root, each with its own view
+	// one parent per root for the "clone" workers, created single-threaded: sibling clones of one
+	// parent are distinct trees too (they share the parent's store/cache view and whatever the
+	// tree struct copies by value)
+	type parentState struct {
+		t      *core.Tree
+		store  mast.Persist
+		cache  mast.NodeCache
+		fcache *env.FrozenCache
+	}
+	parents := map[int]*parentState{}
+	newView := func() (mast.Persist, mast.NodeCache, *env.FrozenCache) {
+		if c.Env == "real" {
+			return realStore, realCache, nil
+		}
+		fc := env.NewFrozenCache(base)
+		return env.NewFrozenStore(base), fc, fc
+	}
 	for i, wk := range c.Workers {
 		st := &workerState{}
-		if c.Env == "real" {
-			st.store, st.cache = realStore, realCache
-		} else {
-			st.store = env.NewFrozenStore(base)
-			st.fcache = env.NewFrozenCache(base)
-			st.cache = st.fcache
-		}
-		r := roots[wk.Root%len(roots)]
+		st.store, st.cache, st.fcache = newView()
+		ri := wk.Root % len(roots)
+		r := roots[ri]
 		st.last = r
 		switch wk.Source {
 		case "clone":
-			parent, err := w.Load(r, st.store, st.cache, false)
-			if err != nil {
-				o.Label("aborted:base-failure")
-				return nil
+			ps := parents[ri]
+			if ps == nil {
+				ps = &parentState{}
+				ps.store, ps.cache, ps.fcache = newView()
+				parent, err := w.Load(r, ps.store, ps.cache, false)
+				if err != nil {
+					o.Label("aborted:base-failure")
+					return nil
+				}
+				// the parent has been used before it is cloned (a diff, a lookup)
+				if empty, err := w.Load(&core.SavedRoot{Root: *w.NewRoot(), Model: core.Model{}}, ps.store, ps.cache, false); err == nil {
+					core.Safely("DiffLinks", func() error {
+						return parent.M.DiffLinks(core.Ctx, empty.M, func(bool, interface{}) (bool, error) { return true, nil })
+					})
+				}
+				ps.t = parent
+				parents[ri] = ps
 			}
-			if st.t, err = w.Clone(parent); err != nil {
+			st.store, st.cache, st.fcache = ps.store, ps.cache, ps.fcache
+			var err error
+			if st.t, err = w.Clone(ps.t); err != nil {
 				o.Label("aborted:base-failure")
 				return nil
 			}
@@ -177,6 +205,9 @@ func runC11(c C11Case, o *run.Obs) error {
 					st.t = lt
 				}
 				poolLen := len(w.Pool)
+				if snap, err := w.Clone(st.t); err == nil {
+					st.snap = snap
+				}
 				for si, op := range wk.Prog {
 					t := st.t
 					var err error
@@ -198,6 +229,19 @@ func runC11(c C11Case, o *run.Obs) error {
 						if ki, ok := core.PresentKey(t.Model, op.K); ok {
 							err = w.Delete(t, ki)
 							res.mutations++
+						}
+					case core.OpSize:
+						if st.snap != nil {
+							want := len(modelDiff(st.snap.Model, t.Model, poolLen))
+							n := 0
+							err = t.M.DiffIter(core.Ctx, st.snap.M, func(a, r bool, k, av, rv interface{}) (bool, error) { n++; return true, nil })
+							if err == nil && n != want {
+								err = fmt.Errorf("DiffIter against the version the worker started from reports %d entries, %d keys differ", n, want)
+							}
+							if err == nil {
+								// the node diff runs too (its result for unpersisted trees is not specified; the race detector watches it)
+								err = t.M.DiffLinks(core.Ctx, st.snap.M, func(removed bool, l interface{}) (bool, error) { return true, nil })
+							}
 						}
 					case core.OpGet:
 						err = w.Get(t, op.K%poolLen)
